@@ -344,7 +344,7 @@ def malformed(ctx):
 
 def run(ctx):
     FM.quiet()
-    n = ctx.n(360, 6000)
+    n = ctx.n(360, 18000)
     for k in range(n):
         which = k % 3
         if which == 0:
